@@ -33,6 +33,8 @@ type result struct {
 	infra error
 }
 
+var errOut = os.Stderr
+
 func main() {
 	if len(os.Args) < 2 {
 		fmt.Fprintln(os.Stderr, "usage: vh <replay> ...")
@@ -56,9 +58,15 @@ func replay(args []string) {
 	seed := fs.Int64("seed", 1, "seed for concretisation")
 	offset := fs.Int("offset", 0, "number added to the scenario index (trace ids of later batches)")
 	_ = fs.Parse(args)
+	if *family == "conc" {
+		// some scenarios switch on the library's default debug logger, which writes to os.Stderr
+		if dn, err := os.OpenFile(os.DevNull, os.O_WRONLY, 0); err == nil {
+			os.Stderr = dn
+		}
+	}
 	tdir, err := os.MkdirTemp("", "vh-tls-")
 	if err != nil {
-		fmt.Fprintln(os.Stderr, "vh:", err)
+		fmt.Fprintln(errOut, "vh:", err)
 		os.Exit(2)
 	}
 	defer os.RemoveAll(tdir)
@@ -73,7 +81,7 @@ func replay(args []string) {
 
 	f, err := os.Open(*in)
 	if err != nil {
-		fmt.Fprintln(os.Stderr, "vh:", err)
+		fmt.Fprintln(errOut, "vh:", err)
 		os.Exit(2)
 	}
 	defer f.Close()
@@ -106,7 +114,7 @@ func replay(args []string) {
 
 	of, err := os.Create(*out)
 	if err != nil {
-		fmt.Fprintln(os.Stderr, "vh:", err)
+		fmt.Fprintln(errOut, "vh:", err)
 		os.Exit(2)
 	}
 	w := bufio.NewWriterSize(of, 1<<20)
@@ -114,7 +122,7 @@ func replay(args []string) {
 	for _, r := range results {
 		if r.infra != nil {
 			infra++
-			fmt.Fprintf(os.Stderr, "vh: infrastructure failure in scenario %d: %v\n", r.idx, r.infra)
+			fmt.Fprintf(errOut, "vh: infrastructure failure in scenario %d: %v\n", r.idx, r.infra)
 			continue
 		}
 		for _, l := range r.lines {
